@@ -197,6 +197,12 @@ def cvals(t, depth=0):
         return cvals(t.args[0], depth + 1)
     if k == 'field' and t[1] == '0' and _strip(t[2]).tag == 'tuple':
         return cvals(_strip(t[2]).args[0], depth + 1)
+    if k == 'call' and t[1].split('::')[-1] == 'len' and len(t[2]) == 1:
+        try:
+            p = clen(t[2][0], depth + 1)
+        except NoLen:
+            return None
+        return {p.get((), 0)} if is_const(p) else None
     return None
 
 
